@@ -134,8 +134,7 @@ pub fn str_to_optimization(opt: &str) -> Optimization {
         "solidity_keccak256" => Optimization::SolidityKeccak256,
         "solidity_math" => Optimization::SolidityMath,
         "sstore" => Optimization::Sstore,
-        //`string_error` is the spelling used in docs/identified-optimizations.md
-        "string_errors" | "string_error" => Optimization::StringErrors,
+        "string_errors" => Optimization::StringErrors,
         "optimal_comparison" => Optimization::OptimalComparison,
         "short_revert_string" => Optimization::ShortRevertString,
 
